@@ -351,8 +351,8 @@ impl Scenario for Decode {
 
     fn budget(&self, tier: &Tier) -> (u64, u64) {
         match tier {
-            Tier::Quick => (150_000, 40),
-            Tier::Thorough => (20_000_000, 1500),
+            Tier::Quick => (1_000_000, 40),
+            Tier::Thorough => (100_000_000, 1500),
         }
     }
 
